@@ -6,6 +6,18 @@ var _ = gosym.Options{}
 
 var props = []PropSpec{
 	{
+		ID: "C03", Level: "other",
+		Explanation: "bounded symbolic execution of the real analyzer (through Parse+Analyze) over rule templates whose type kinds, arities, operators and syntactic positions are selectors explored exhaustively by the engine; oracle: fault switch <=> at least one error-level diagnostic, recorded expression/variable types equal the rule's result type; Analyzer.TypeCheck is compared with a reference compatibility relation on type trees",
+		Harnesses: []HarnessSpec{
+			{Pkg: "homescript", Func: "VerifHarness_Rules", Quick: map[string]int{}, Require: []string{"analyzed"},
+				What: "17 rule templates (let/assignment/condition/operand/arity/argument/return/branch/iterator mismatch, unknown identifier/type/member, break/continue placement incl. closures in loops, duplicate definitions, implicit any, main shape, return after a closure literal, non-constant global, container element/index/member types) x type kinds x 7 syntactic positions: rejected iff a rule is broken"},
+			{Pkg: "homescript", Func: "VerifHarness_ExprTypes", Quick: map[string]int{}, Require: []string{"analyzed", "typed"},
+				What: "`let v = L op R` for 19 operators x 4x4 scalar type pairs: accepted iff admissible, recorded expression and variable types are the rule's result type"},
+			{Pkg: "homescript", Func: "VerifHarness_TypeCheck", Quick: map[string]int{"depth": 1}, Thor: map[string]int{"depth": 2}, ThorPaths: 500000, ThorSecs: 1200, Require: []string{"checked"},
+				What: "Analyzer.TypeCheck(got, expected) vs reference compatibility on all pairs of type trees of the stated depth (11 kinds, object keys from {a,b})"},
+		},
+	},
+	{
 		ID: "C07", Level: "other",
 		Explanation: "bounded symbolic execution of the real Pratt parser (parser.expression) on `a OP b OP c OP d` where every operator token kind is a solver variable ranging over all infix and assignment operator tokens (lexer replaced by a stub serving the kinds); the parsed tree's bracket structure is compared with a reference splitter written from the operator table in the property statement; prefix/postfix/as/layout variants run through the real lexer",
 		Harnesses: []HarnessSpec{
